@@ -1043,7 +1043,10 @@ class Server:
         base_path = connection.user.base_path
         real_path = base_path / str(resolved_virtual_path.relative_to("/"))
         # replace with `is_relative_to` check after 3.9+ requirements lands
-        if not real_path.is_relative_to(base_path):
+        # a name can hold what the flavour of `base_path` takes for a separator
+        # ("..\\x" below a windows path): the join splits it again, so ".." can
+        # come back after it was folded above
+        if not real_path.is_relative_to(base_path) or ".." in real_path.relative_to(base_path).parts:
             real_path = base_path
             resolved_virtual_path = pathlib.PurePosixPath("/")
         return real_path, resolved_virtual_path
